@@ -256,7 +256,8 @@ def check_function(rep, fn, lookup, mask, fam, a, sym):
                 try:
                     outs, st0 = run_piece(fn, lookup, mask, fr, args, hdr, env0, headers)
                 except Unsupported as e:
-                    probs.append('%s: %s' % (lab, e))
+                    # the step could not be followed (a value defined in front of the loop, a construct outside the domain)
+                    probs.append('UNFOLLOWED %s: %s' % (lab, e))
                     continue
                 if len(outs) != 1:
                     probs.append('%s: %d outcomes' % (lab, len(outs)))
@@ -286,7 +287,11 @@ def check_function(rep, fn, lookup, mask, fam, a, sym):
             if best is None or len(probs) < len(best[0]):
                 best = (probs, n)
         nobl += best[1]
-        bad += ['loop %d %s' % (k, p_) for p_ in best[0]]
+        if best[0] and all(p_.startswith('UNFOLLOWED ') for p_ in best[0]):
+            # under the best assignment of the loop variables nothing differs, but some steps could not be followed: no verdict
+            rep.unk('I3', sym, 'loop %d %s' % (k, best[0][0][len('UNFOLLOWED '):]), loc=fn.loc(hdr.term))
+            return False
+        bad += ['loop %d %s' % (k, p_.replace('UNFOLLOWED ', '')) for p_ in best[0]]
     if bad:
         rep.bad('I3', sym, '%d step(s) differ from the reference traversal: %s' % (len(bad), '; '.join(bad[:3])), loc=fn.loc(fn.entry.term), key='%s: step table' % fn.name)
         return False
